@@ -490,6 +490,10 @@ where
                 self.signal_pending = match self.signal_pending {
                     // no signal pending, so signal all *other* machines
                     None => Some(SignalTarget::AllExcept(mi)),
+                    // the same machine signalling again is still a lone signaller
+                    Some(SignalTarget::AllExcept(other)) if other == mi => {
+                        Some(SignalTarget::AllExcept(mi))
+                    }
                     // signal already pending from another machine, so signal
                     // all machines (including this one)
                     _ => Some(SignalTarget::All),
